@@ -206,7 +206,7 @@ static void run_enc(uint64_t seed, long n)
    vrng r; long it, cases = 0, viol = 0, frames = 0, top = 0, bot = 0, unmatched = 0;
    r.s = seed * 0x9E3779B97F4A7C15ULL + 0xE18CULL;
    for (it = 0; it < n; it++) {
-      int f = (int)vbelow(&r, 3), fs = fss[f], Fs = fs * 1000, err, p, npk = vrange(&r, 4, 10), kind = (int)vbelow(&r, 3), k, j;
+      int f = (int)vbelow(&r, 3), fs = fss[f], Fs = fs * 1000, err, p, npk = vrange(&r, 4, 10), kind = vchance(&r, 45) ? 0 : (int)vbelow(&r, 3), k, j;
       int ms = vchance(&r, 30) ? 10 : vchance(&r, 70) ? 20 : vchance(&r, 50) ? 40 : 60;
       int fsz = Fs / 1000 * ms, total = fsz * npk;
       OpusEncoder *enc = opus_encoder_create(Fs, 1, OPUS_APPLICATION_VOIP, &err);
